@@ -2,6 +2,7 @@ import PiqpProofs.Basic
 import PiqpModel.Pack
 import PiqpModel.Solver
 import PiqpModel.Api
+import PiqpProofs.Properties.C15
 import Mathlib.Tactic.Ring
 import Mathlib.Algebra.BigOperators.Ring.Finset
 import Mathlib.Algebra.Order.BigOperators.Group.Finset
@@ -794,6 +795,61 @@ theorem solve_loop_in_cone (cs : Consts K) (sqrtF : K → K) (s : Solver K n p m
       (initialPoint cs s (Solver.env cs sqrtF s perm) w0 kkt1 info1 refineOn)).1.w :=
   mainLoop_in_cone (Solver.env cs sqrtF s perm) _ hτ0 hτ1 heps
     (initialPoint_in_cone cs s _ w0 kkt1 info1 refineOn hnl hnu h15 h05 hguard)
+
+
+/-! ### From the loop iterate to the stored results: unscaling and re-indexing keep the results well formed -/
+
+open Piqp.C15
+
+/-- re-indexing keeps signs: packed values (> 0) at their variables, the fill value (≥ 0 resp. > 0) elsewhere -/
+theorem restore_pos (b : BoxSide K n) (hcn : b.cnt ≤ n) (hs : StrictIdx b.idx b.cnt) (fill : K) (v : Vec K n)
+    (hv : ∀ t : Fin n, t.val < b.cnt → 0 < v[t]) :
+    ∀ j : Fin n, (restoreBox b fill v)[j] = fill ∨ 0 < (restoreBox b fill v)[j] := by
+  obtain ⟨r1, r2⟩ := restoreBox_spec b hcn hs fill v
+  intro j
+  by_cases h : ∃ t : Fin n, t.val < b.cnt ∧ b.idx[t] = j
+  · obtain ⟨t, ht, hj⟩ := h
+    right
+    subst hj
+    rw [r1 t ht]; exact hv t ht
+  · left
+    exact r2 j (fun t ht heq => h ⟨t, ht, heq⟩)
+
+/-- **C08 at the interface: what `solve()` stores after the main loop is well formed.** Unscaling (positive scalings) and
+    re-indexing (strictly increasing packing) turn an iterate that is strictly inside the cone into result vectors with
+    `s > 0`, `z > 0`, and for the box vectors in original indexing: `z_lb, z_ub` are exactly `0` or positive, `s_lb, s_ub` are exactly
+    `+∞` (the solver's constant) or positive — for every `n`, every finite/infinite pattern. -/
+theorem results_wellformed (cs : Consts K) (pk : PrecKind) (hk : pk ≠ .identity) (d : Data K n p m) (pre : Precond K n p m)
+    (hp : Pos pre) (hi : InvFull pre) (hnlb : pre.nlb = d.lb.cnt) (hnub : pre.nub = d.ub.cnt)
+    (hl : d.lb.cnt ≤ n) (hu : d.ub.cnt ≤ n) (sl : StrictIdx d.lb.idx d.lb.cnt) (su : StrictIdx d.ub.idx d.ub.cnt)
+    (wl : Work K n p m) (hc : InCone d wl) :
+    let res := restoreBoxDual cs d (unscaleResults pk pre wl)
+    (∀ t : Fin m, 0 < res.s[t]) ∧ (∀ t : Fin m, 0 < res.z[t]) ∧
+    (∀ j : Fin n, res.z_lb[j] = 0 ∨ 0 < res.z_lb[j]) ∧ (∀ j : Fin n, res.z_ub[j] = 0 ∨ 0 < res.z_ub[j]) ∧
+    (∀ j : Fin n, res.s_lb[j] = cs.posInf ∨ 0 < res.s_lb[j]) ∧ (∀ j : Fin n, res.s_ub[j] = cs.posInf ∨ 0 < res.s_ub[j]) := by
+  obtain ⟨ic, ix, iy, iz, il, iu⟩ := inv_pos_of pre hp hi
+  simp only [restoreBoxDual, unscaleResults]
+  refine ⟨fun t => ?_, fun t => ?_, ?_, ?_, ?_, ?_⟩
+  · simp only [Precond.unscaleSlackIneq, hk, if_false, C15.ofFn_get]
+    exact mul_pos (hc.s t) (iz t)
+  · simp only [Precond.unscaleDualIneq, hk, if_false, C15.ofFn_get]
+    exact mul_pos (mul_pos (hc.z t) ic) (hp.dz t)
+  · apply restore_pos d.lb hl sl
+    intro t ht
+    simp only [Precond.unscaleDualLb, hk, if_false, C15.headMap_get, hnlb, ht, if_true]
+    exact mul_pos (mul_pos (hc.z_lb t ht) ic) (hp.dlb t)
+  · apply restore_pos d.ub hu su
+    intro t ht
+    simp only [Precond.unscaleDualUb, hk, if_false, C15.headMap_get, hnub, ht, if_true]
+    exact mul_pos (mul_pos (hc.z_ub t ht) ic) (hp.dub t)
+  · apply restore_pos d.lb hl sl
+    intro t ht
+    simp only [Precond.unscaleSlackLb, hk, if_false, C15.headMap_get, hnlb, ht, if_true]
+    exact mul_pos (hc.s_lb t ht) (il t)
+  · apply restore_pos d.ub hu su
+    intro t ht
+    simp only [Precond.unscaleSlackUb, hk, if_false, C15.headMap_get, hnub, ht, if_true]
+    exact mul_pos (hc.s_ub t ht) (iu t)
 
 end cone
 end Piqp.C08
